@@ -25,8 +25,8 @@ def check_case(case):
     return out, ref, got
 
 
-def _consume(acc, seq):
-    v, ref, got = check_case({"kind": "scd", "seq": seq})
+def _consume(acc, seq, fam=None):
+    v, ref, got = check_case({"kind": "scd", "seq": seq} if fam is None else {"kind": "scd", "seq": seq, "family": fam[0], "index": fam[1]})
     acc.states += 1
     acc.transitions += 1
     acc.traces += 1
@@ -59,6 +59,11 @@ def shard(s):
             for pat in ("+" * N, ("+-" * N)[:N - 1] + "+", "+" + "0" * (N - 2) + "-", "-" + "0+" * ((N - 2) // 2) + "0" * ((N - 2) % 2) + "-"):
                 if len(pat) == N:
                     _consume(acc, R.spell_rotating(pat, N))
+    elif kind == "PAD":
+        from ..engines.history import fresh_world
+        fresh_world()
+        for i, pat in enumerate(spaces.padded_cores()):
+            _consume(acc, R.spell_rotating(pat, len(pat) % 3), ("PAD", i))
     elif kind == "DB":
         for pat in spaces.window_complete_chunks(R.SYM, 6, s[1]):
             _consume(acc, R.spell_rotating(pat, len(pat)))
@@ -78,6 +83,7 @@ def run(tier, seed, t0):
     shards += [("R", N, 3) for N in range(RN, 1, -1)]
     LN = (64, 127, 128, 129, 200, 256, 257, 513) if tier == "quick" else (64, 127, 128, 129, 200, 255, 256, 257, 300, 400, 512, 700, 1000)
     shards += [("LONG", N) for N in LN]
+    shards += [("PAD",)]
     shards += [("DB", (L_,)) for L_ in ((23, 47, 97) if tier == "quick" else (17, 23, 31, 47, 61, 97, 150, 301))]
     SC = 200 if tier == "quick" else 520
     shards = [("SCAN", SC, "up"), ("SCAN", SC, "down")] + shards
@@ -87,7 +93,8 @@ def run(tier, seed, t0):
         rule="every charge pattern of length 1..%d (K/E/G), every pattern of length 1..%d in 17 spellings covering all 20 "
              "residues, every <=3-run pattern of length 2..%d, a structured family of long patterns (homopolymers, 2/3-block, periodic) "
              "at lengths %s, and EVERY length 2..%d in strictly ascending and strictly descending order in a freshly imported package (4 "
-             "patterns with charged termini per length); one real get_SCD() call each, compared with "
+             "patterns with charged termini per length), and shared-core families (6 irregular cores of 24-40 residues with charged ends, each "
+             "between every combination of 0/1/3/8 neutral residues on either side, core-major then padding-major, in a fresh package); one real get_SCD() call each, compared with "
              "(1/N) sum_{m>n} q_m q_n sqrt(m-n) evaluated with integer pair counts per distance and math.fsum; "
              "non-trivial = reference SCD != 0" % (L, L2, RN, list(LN), SC),
         bounds={"L_base": L, "L_spellings": L2, "runlength_N": RN, "tolerance_rel": 1e-9},
@@ -95,4 +102,7 @@ def run(tier, seed, t0):
 
 
 def replay(case):
+    if case.get("family") == "PAD":      # the whole family up to this member, in order, in the (fresh) world
+        for pat in spaces.padded_cores()[:case["index"]]:
+            check_case({"kind": "scd", "seq": R.spell_rotating(pat, len(pat) % 3)})
     return check_case(case)[0]
